@@ -268,12 +268,17 @@ theorem emu_subparams_ignored (e : Emu) (f : Nat) (pm : List Param) (hf : f ∈ 
 example : dropSubs [(2, [5]), (7, [])] = [(2, []), (7, [])] := by decide
 
 /-- **All histories over the extended vocabulary** (round 3): any sequence of operations of the round-1/2 vocabulary (SGR
-    included), one-parameter functions with any parameter list, CUP / HVP / DECSTBM with more than two parameters and RIS,
-    from any related pair of states: the emulator never panics and shows what the reference allows after every prefix. -/
+    included), one-parameter functions with any parameter list, CUP / HVP / DECSTBM with more than two parameters, RIS and
+    OSC 8 hyperlinks, from any related pair of states with the widget's OSC 8 switch on (the default; `osc8_switch_stable`): the emulator never panics and shows what the reference allows after every prefix. -/
 theorem emu_refines_histories_X {rows cols : Nat} {ops : List EOp} {toks : List Term.Tok}
-    (hv : VocabHistX ops toks) {t : Term.T} {e : Emu} (s2 : Sim2 t e rows cols) :
+    (hv : VocabHistX ops toks) {t : Term.T} {e : Emu} (s2 : Sim2 t e rows cols) (ho : e.osc8 = true) :
     ∃ e', runOps e ops = .ok e' ∧ SpecAllows t toks e' rows cols :=
-  emu_refines_history_X step_safe hv s2
+  emu_refines_history_X step_safe hv s2 ho
+
+/-- No operation whatsoever (any sequence, any parameters, resizes included) changes the widget's `OSC8` switch — which is
+    why hyperlinks stay honoured along a history. -/
+theorem osc8_switch_stable {e : Emu} {op : EOp} {r : Emu × Nat} (h : emuStep e op = .ok r) : r.1.osc8 = e.osc8 :=
+  VaxisModel.Lemmas.EmuOsc8.emuStep_o8 h
 
 /-- … and from start-up, for every admissible size. -/
 theorem emu_refines_from_start_X (w h : Int) (hw1 : 1 ≤ w) (hw2 : w ≤ 65535) (hh1 : 1 ≤ h) (hh2 : h ≤ 65535)
@@ -282,16 +287,17 @@ theorem emu_refines_from_start_X (w h : Int) (hw1 : 1 ≤ w) (hw2 : w ≤ 65535)
       SpecAllows (Term.T.init h.toNat w.toNat) toks e' h.toNat w.toNat :=
   emu_refines_session_X step_safe w h hw1 hw2 hh1 hh2 hv
 
-/-- Non-vacuity: `SGR 41`, `CSI 2;3;9 r`, `ESC c`, `CSI 2;2;7 H`, `CSI 1;5 B`, "a" is a history of the extended vocabulary. -/
+/-- Non-vacuity: `SGR 41`, `CSI 2;3;9 r`, `ESC c`, `CSI 2;2;7 H`, `CSI 1;5 B`, `OSC 8;;x`, "a" is a history of the extended vocabulary. -/
 example : VocabHistX
     [.csi [109] [(41, [])], .csi [114] [(2, []), (3, []), (9, [])], .esc [99], .csi [72] [(2, []), (2, []), (7, [])],
-     .csi [66] [(1, []), (5, [])], .print [97] 1]
-    [.sgr [[41]], .decstbm 2 3, .ris, .cup 2 2, .cud 1, .print [97] 1] := by
+     .csi [66] [(1, []), (5, [])], .osc [56, 59, 59, 120] {}, .print [97] 1]
+    [.sgr [[41]], .decstbm 2 3, .ris, .cup 2 2, .cud 1, .osc8 [] [120], .print [97] 1] := by
   refine .cons (.base ⟨by decide, (by intro ps h; cases h; exact ⟨by decide, _, rfl, by decide⟩), (by intro g w h; cases h)⟩) ?_
   refine .cons (.two (by decide) (by decide) (by decide)) ?_
   refine .cons .ris ?_
   refine .cons (.two (by decide) (by decide) (by decide)) ?_
   refine .cons (.long (by decide) (by decide) (by decide)) ?_
+  refine .cons (.osc8 (by decide)) ?_
   exact .cons (.base ⟨by decide, (by intro ps h; cases h), (by intro g w h; cases h; decide)⟩) .nil
 
 /-- `tokOfX` agrees with these statements: its tokens for the two cursor functions. -/
